@@ -7,6 +7,7 @@ import (
 	"encoding/json"
 	"fmt"
 	"path/filepath"
+	"regexp"
 	"go/ast"
 	"go/format"
 	"go/parser"
@@ -28,6 +29,86 @@ func call(fn ast.Expr, args ...ast.Expr) *ast.CallExpr { return &ast.CallExpr{Fu
 
 type rw struct {
 	tmp int
+}
+
+// resets collects, per package, statements that re-initialise lazily filled package-level caches
+// (sync.Map variables and maps named *cache*), so that every execution starts from a cold process state.
+var resets []string
+var resetNeedsSync bool
+
+var reCacheName = regexp.MustCompile(`(?i)cache`)
+
+func exprString(e ast.Expr) string {
+	var b bytes.Buffer
+	_ = format.Node(&b, token.NewFileSet(), e)
+	return b.String()
+}
+
+func isSyncMapType(e ast.Expr) bool {
+	if st, ok := e.(*ast.StarExpr); ok {
+		e = st.X
+	}
+	se, ok := e.(*ast.SelectorExpr)
+	if !ok {
+		return false
+	}
+	id, ok := se.X.(*ast.Ident)
+	return ok && id.Name == "sync" && se.Sel.Name == "Map"
+}
+
+// collectResets inspects a package-level var declaration BEFORE rewriting.
+func collectResets(gd *ast.GenDecl) {
+	if gd.Tok != token.VAR {
+		return
+	}
+	for _, sp := range gd.Specs {
+		vs := sp.(*ast.ValueSpec)
+		for i, name := range vs.Names {
+			if name.Name == "_" {
+				continue
+			}
+			var init ast.Expr
+			if i < len(vs.Values) {
+				init = vs.Values[i]
+			}
+			switch {
+			case vs.Type != nil && isSyncMapType(vs.Type) && init == nil:
+				if _, ptr := vs.Type.(*ast.StarExpr); !ptr {
+					resets = append(resets, name.Name+" = sync.Map{}")
+					resetNeedsSync = true
+				}
+			case init != nil:
+				if c, ok := init.(*ast.CallExpr); ok {
+					if id, ok := c.Fun.(*ast.Ident); ok && id.Name == "new" && len(c.Args) == 1 && isSyncMapType(c.Args[0]) {
+						resets = append(resets, name.Name+" = new(sync.Map)")
+						resetNeedsSync = true
+						continue
+					}
+					if id, ok := c.Fun.(*ast.Ident); ok && id.Name == "make" && len(c.Args) >= 1 && reCacheName.MatchString(name.Name) {
+						if _, ok := c.Args[0].(*ast.MapType); ok {
+							resets = append(resets, name.Name+" = make("+exprString(c.Args[0])+")")
+						}
+						continue
+					}
+				}
+				if u, ok := init.(*ast.UnaryExpr); ok && u.Op == token.AND {
+					if cl, ok := u.X.(*ast.CompositeLit); ok && isSyncMapType(cl.Type) {
+						resets = append(resets, name.Name+" = new(sync.Map)")
+						resetNeedsSync = true
+						continue
+					}
+				}
+				if cl, ok := init.(*ast.CompositeLit); ok {
+					if isSyncMapType(cl.Type) {
+						resets = append(resets, name.Name+" = sync.Map{}")
+						resetNeedsSync = true
+					} else if _, ok := cl.Type.(*ast.MapType); ok && len(cl.Elts) == 0 && reCacheName.MatchString(name.Name) {
+						resets = append(resets, name.Name+" = "+exprString(cl.Type)+"{}")
+					}
+				}
+			}
+		}
+	}
 }
 
 func (r *rw) fresh(p string) string { r.tmp++; return fmt.Sprintf("__%s%d", p, r.tmp) }
@@ -373,6 +454,7 @@ func rewriteFile(in, out string) error {
 				}
 				continue
 			}
+			collectResets(x)
 			r.genDecl(x)
 		case *ast.FuncDecl:
 			r.fields(x.Recv)
@@ -448,7 +530,28 @@ func main() {
 				os.Exit(2)
 			}
 			overlay[filepath.Join(dir, n)] = filepath.Join(odir, n)
+			if pkgName == "" {
+				pkgName = packageName(filepath.Join(dir, n))
+			}
 		}
+		// per-package reset of lazily filled caches
+		var rb strings.Builder
+		fmt.Fprintf(&rb, "package %s\n\n", pkgName)
+		if resetNeedsSync {
+			fmt.Fprintf(&rb, "import sync %q\n\n", mcPath+"/vsync")
+		}
+		rb.WriteString("// ZZVerifReset re-initialises the package's lazily filled caches (cold-process state).\nfunc ZZVerifReset() {\n")
+		for _, st := range resets {
+			rb.WriteString("\t" + st + "\n")
+		}
+		rb.WriteString("}\n")
+		rp := filepath.Join(odir, "zz_verif_reset.go")
+		if err := os.WriteFile(rp, []byte(rb.String()), 0o644); err != nil {
+			fmt.Fprintln(os.Stderr, "instr:", err)
+			os.Exit(2)
+		}
+		overlay[filepath.Join(dir, "zz_verif_reset.go")] = rp
+		resets, resetNeedsSync, pkgName = nil, false, ""
 	}
 	// inject the runtime as a virtual package inside the repository's module
 	for _, sub := range []string{"", "vsync", "vatomic"} {
@@ -471,3 +574,12 @@ func main() {
 }
 
 var extraOverlay [][2]string
+var pkgName string
+
+func packageName(file string) string {
+	f, err := parser.ParseFile(token.NewFileSet(), file, nil, parser.PackageClauseOnly)
+	if err != nil {
+		return "main"
+	}
+	return f.Name.Name
+}
